@@ -319,7 +319,8 @@ struct Outcome {
 }
 
 /// deviation-bounded exhaustive exploration of the schedules of one cell
-fn explore(cell: &Cell, threads: usize, blocks: usize, bound: usize, max_runs: u64) -> Outcome {
+fn explore(cell: &Cell, threads: usize, blocks: usize, bound: usize, max_runs: u64, max_secs: f64) -> Outcome {
+    let t0 = std::time::Instant::now();
     // reference: default schedule with one thread and one block (= sequential order through the parallel code path)
     sched::begin(&[], 1, 1);
     let reference = catch_unwind(AssertUnwindSafe(|| (cell.op)()));
@@ -333,7 +334,7 @@ fn explore(cell: &Cell, threads: usize, blocks: usize, bound: usize, max_runs: u
     let mut stack: Vec<Vec<u32>> = vec![vec![]];
     let mut out = Outcome { runs: 0, complete: true, max_choice_points: 0, distinct_traces: 0, violation: None, machinery: None };
     while let Some(prefix) = stack.pop() {
-        if out.runs >= max_runs {
+        if out.runs >= max_runs || t0.elapsed().as_secs_f64() > max_secs {
             out.complete = false;
             break;
         }
@@ -396,11 +397,13 @@ fn main() {
     pairing_cells::<ark_mnt4_298::MNT4_298>("mnt4_298", if quick { &[5] } else { &[1, 4, 5, 9] }, &mut cells);
     pairing_cells::<ark_bw6_761::BW6_761>("bw6_761", if quick { &[5] } else { &[1, 4, 5, 9] }, &mut cells);
     // thread counts / block counts
-    let grid: Vec<(usize, usize)> = if quick { vec![(2, 2), (3, 3), (16, 4)] } else { vec![(1, 3), (2, 2), (3, 3), (4, 4), (5, 3), (8, 4), (16, 4), (17, 5), (64, 4)] };
-    let max_runs: u64 = ctx.t(400, 60_000);
+    let grid: Vec<(usize, usize)> = if quick { vec![(2, 2), (3, 3), (16, 4)] } else { vec![(1, 3), (2, 2), (3, 3), (4, 4), (7, 5), (16, 4), (17, 3)] };
+    let max_runs: u64 = ctx.t(400, 8_000);
+    let max_secs: f64 = ctx.t(8.0, 60.0);
     ctx.bound("thread_x_block_grid", format!("{grid:?}"));
     ctx.bound("deviation_bound", if quick { "1 (every schedule that departs from the in-order schedule at exactly one choice point)" } else { "2 for light cells, 1 for heavy ones (size >= 1024 / > 40 bases / > 4 pairs); a deviation = taking a non-default option at one choice point" });
     ctx.bound("max_schedules_per_cell", max_runs);
+    ctx.bound("max_seconds_per_cell", max_secs);
     let total_runs = AtomicU64::new(0);
     let capped = AtomicU64::new(0);
     let max_cp = AtomicU64::new(0);
@@ -410,7 +413,7 @@ fn main() {
         let [ig, ic] = unrank(i, [ng, ncells]);
         let cell = &cells[ic as usize];
         let (t, b) = grid[ig as usize];
-        let o = explore(cell, t, b, if quick { 1 } else { cell.bound }, max_runs);
+        let o = explore(cell, t, b, if quick { 1 } else { cell.bound }, max_runs, max_secs);
         total_runs.fetch_add(o.runs, Ordering::Relaxed);
         max_cp.fetch_max(o.max_choice_points as u64, Ordering::Relaxed);
         loc.ops(o.runs);
